@@ -11,7 +11,7 @@
    the theorems hold for whatever the platform's conversions are.  [DFuel] is the out-of-fuel
    outcome of the exhaust-buffer loop; theorems either exclude it or (findings) exhibit it. *)
 From Coq Require Import List ZArith Permutation Sorting.
-From TskVerif Require Import Base.Common Gen.Generated C12.Model C12.BytesProofs C12.RoundTripProofs
+From TskVerif Require Import Base.Common Gen.Generated C12.Model C12.BytesProofs C12.Unfold C12.ShapeProofs C12.RoundTripProofs
   C12.LayoutProofs C12.OrderProofs C12.ExhaustProofs C12.ValidProofs C12.JsonProofs C12.NormProofs
   C12.StringProofs.
 Import ListNotations.
@@ -36,25 +36,39 @@ Theorem int_out_of_range_is_rejected : forall round32 f z,
 Proof. exact int_out_of_range_rejected. Qed.
 
 (* ---- (a) round trip ---- *)
-(* whatever encodes under an exhaust-free schema decodes to its normal form and leaves the
-   following bytes alone (so decode consumes exactly |encode| bytes) *)
-Theorem struct_roundtrip : forall round32 widen32 s, rt_ok s = true ->
-  forall fuel v bs rest, encode round32 s v = EOk bs ->
+(* [shape_ok]: the struct-codec schema rules hold at every level (binaryFormat present, every
+   property required or defaulted, defaults valid).  [rt_ok]: type and format agree, no '0p', no
+   exhaust-buffer array.  For every such schema and every object valid under it that encodes,
+   decode gives the normal form back and leaves the following bytes alone (so decode consumes
+   exactly |encode| bytes) *)
+Theorem struct_roundtrip : forall round32 widen32 s, rt_ok s = true -> shape_ok s = true ->
+  forall fuel v bs rest, valid s v = true -> encode round32 s v = EOk bs ->
   decode widen32 fuel s (bs ++ rest) = DOk (norm round32 widen32 s v) rest.
 Proof. exact struct_roundtrip_gen. Qed.
 
 (* validate_and_encode_row then decode_row, top level "object" or ["object","null"] *)
 Theorem struct_roundtrip_row : forall round32 widen32 t v bs fuel,
-  rt_ok (t_schema t) = true ->
+  rt_ok (t_schema t) = true -> shape_ok (t_schema t) = true ->
   validate_and_encode round32 t v = EOk bs ->
   (t_nullable t = true -> v <> VNull -> bs <> []) ->
   decode_top widen32 fuel t bs = DOk (norm_top round32 widen32 t v) [].
 Proof. exact struct_roundtrip_top. Qed.
 
+(* validation protects the encoder: a validated row never dies with KeyError / AttributeError
+   (so object_encode's `except KeyError` fallback is never taken) — under shape_ok *)
+Theorem valid_protects_encoder : forall round32 s, shape_ok s = true ->
+  forall v, valid s v = true -> forall e, encode round32 s v = EErr e -> e <> EKey /\ e <> EAttr.
+Proof.
+  intros round32 s Hs v Hv e He. pose proof (ShapeProofs.valid_protects_encoder round32 s Hs v Hv e He) as H.
+  split; intros ->; apply H; [left | right]; reflexivity.
+Qed.
+
 (* noLengthEncodingExhaustBuffer used as documented: last encoded property, items >= 1 byte *)
 Theorem exhaust_tail_roundtrip : forall round32 widen32 req ps k m it v bs fuel,
   forallb (fun p : prop => rt_ok (snd p)) ps = true ->
   rt_ok it = true -> (0 < min_width it)%nat ->
+  shape_ok (SObj req (ps ++ [(k, m, SArr AExhaust it)])) = true ->
+  valid (SObj req (ps ++ [(k, m, SArr AExhaust it)])) v = true ->
   encode round32 (SObj req (ps ++ [(k, m, SArr AExhaust it)])) v = EOk bs ->
   (length bs < fuel)%nat ->
   decode widen32 fuel (SObj req (ps ++ [(k, m, SArr AExhaust it)])) bs =
@@ -81,6 +95,8 @@ Proof. exact sort_props_perm_invariant. Qed.
 
 (* ---- (b) layout ---- *)
 Theorem struct_layout : forall round32 req ps kv bs,
+  shape_ok (order_by_index (SObj req ps)) = true ->
+  valid (order_by_index (SObj req ps)) (VObj kv) = true ->
   encode round32 (order_by_index (SObj req ps)) (VObj kv) = EOk bs ->
   exists ps' parts,
     order_by_index (SObj req ps) = SObj req ps' /\
@@ -134,7 +150,7 @@ Theorem exhaust_nontail_refuted : exists (t : top) (v : value) (bs : list Z),
 Proof. exact ExhaustProofs.exhaust_nontail_refuted. Qed.
 
 Theorem object_or_null_empty_refuted : exists (t : top) (v : value),
-  rt_ok (t_schema t) = true /\
+  rt_ok (t_schema t) = true /\ shape_ok (t_schema t) = true /\
   validate_and_encode round32_impl t v = EOk [] /\
   decode_top widen32_impl 5 t [] = DOk VNull [] /\
   norm_top round32_impl widen32_impl t v <> VNull.
@@ -148,6 +164,15 @@ Theorem nested_validators_skipped_refuted :
   (exists t : top, construct t = CAccept /\
      exists p q, t_schema t = SObj None [p] /\ snd p = SObj None [q] /\ neg_length (snd q) = true).
 Proof. exact ValidProofs.nested_validators_skipped_refuted. Qed.
+
+Theorem nested_keyerror_substitutes_default_refuted :
+  let v := VObj [([111], VObj [([98], VInt 1)])] in
+  construct subst_schema = CAccept /\
+  valid_top (modify_top subst_schema) v = true /\
+  validate_and_encode round32_impl (modify_top subst_schema) v = EOk [5; 0; 0; 0; 6; 0; 0; 0] /\
+  decode_top widen32_impl 0 (modify_top subst_schema) [5; 0; 0; 0; 6; 0; 0; 0] =
+    DOk (VObj [([111], VObj [([97], VInt 5); ([98], VInt 6)])]) [].
+Proof. exact ValidProofs.nested_keyerror_substitutes_default_refuted. Qed.
 
 (* ---- (e) rejection ---- *)
 Theorem invalid_rejected : forall round32 t v,
